@@ -5,6 +5,10 @@ import TongoProofs.Lemmas.Bits
 namespace Tongo.Hashmap
 open Tongo Tongo.Bits
 
+@[simp] theorem ty_ordinary (b : List Bool) (r : List Cell) : (Cell.ordinary b r).ty = 0 := rfl
+@[simp] theorem bits_ordinary (b : List Bool) (r : List Cell) : (Cell.ordinary b r).bits = b := rfl
+@[simp] theorem refs_ordinary (b : List Bool) (r : List Cell) : (Cell.ordinary b r).refs = r := rfl
+
 /-! ### minBitsRequired -/
 
 theorem lt_two_pow_bitLenAux (f v : Nat) (h : v < 2 ^ f) : v < 2 ^ bitLenAux f v := by
